@@ -154,19 +154,43 @@ def run_property(pid: str, tier: str = "quick", seed: int = 0) -> int:
     functions = []
     canaries = {"checked": 0, "vacuous": []}
     t_gen = time.time()
-    try:
-        for tgt in spec.targets:
+    label = "?"
+    sub_obs = []          # obligations of sub-specifications (each verified in an engine of its own), already filtered
+
+    def verify_targets(Ex, sx):
+        nonlocal label
+        for tgt in sx.targets:
             qual, nested = (tgt, None) if isinstance(tgt, str) else tgt
             label = qual + ("." + nested if nested else "")
-            c = getattr(spec, "event_contracts", {}).get(label) or E.contracts.get(label) or E.contracts[qual]
+            c = getattr(sx, "event_contracts", {}).get(label) or Ex.contracts.get(label) or Ex.contracts[qual]
             canaries["checked"] += 1
-            if not E.canary(label, c):
+            if not Ex.canary(label, c):
                 canaries["vacuous"].append(label)
-            before = len(E.obligations)
-            npaths, nob = E.verify(qual, c, nested)
-            mod_, cls_, fn_ = E.repo.find_nested(qual, nested) if nested else E.repo.find(qual)
+            npaths, nob = Ex.verify(qual, c, nested)
+            mod_, cls_, fn_ = Ex.repo.find_nested(qual, nested) if nested else Ex.repo.find(qual)
             functions.append({"function": label, "paths": npaths, "obligations": nob,
-                              "source_sha": E.repo.func_sha(mod_, fn_), "file": str(mod_.path), "line": fn_.lineno})
+                              "source_sha": Ex.repo.func_sha(mod_, fn_), "file": str(mod_.path), "line": fn_.lineno})
+    try:
+        verify_targets(E, spec)
+        # sub-specifications: other contract modules this property also stands on, each in a fresh engine so that their
+        # environment models (event loop, certificate parsing, ...) cannot clash with this module's
+        for sub in getattr(spec, "subs", []):
+            E2 = Engine()
+            s2 = sub(E2)
+            verify_targets(E2, s2)
+            k2 = getattr(s2, "keep", None)
+            for ob in E2.obligations.values():
+                if k2 is None or k2(ob.name):
+                    sub_obs.append(ob)
+            spec.trusted += [t for t in s2.trusted if t not in spec.trusted]
+            spec.syntactic += list(s2.syntactic)
+            E.assumptions_used |= E2.assumptions_used
+            E.inline |= set(E2.inline)
+            E.trivial += E2.trivial
+            E.paths += E2.paths
+            E.infeasible_paths += E2.infeasible_paths
+            E.feas_calls += E2.feas_calls
+            E.feas_time += E2.feas_time
     except Unsupported as e:
         return undecided(str(e), {"functions": functions})
     except Exception as e:
@@ -200,6 +224,7 @@ def run_property(pid: str, tier: str = "quick", seed: int = 0) -> int:
         dropped = [ob for ob in obs if not keep(ob.name)]
         obs = [ob for ob in obs if keep(ob.name)]
         ev["coverage"]["obligations_of_other_properties_not_counted"] = len(dropped)
+    obs = obs + sub_obs
     if canaries["vacuous"]:
         return finish(3, f"vacuous precondition (canary unsat) for {canaries['vacuous']}", {"functions": functions})
     if len(obs) + len(spec.syntactic) == 0:
